@@ -154,7 +154,7 @@ class QuickShift(BaseEstimator):
             qspath.append(i)
             current = qspath[-1]
             while current != idxroot[current]:
-                if self.gabriel_shell is not None:
+                if self.dist_cutoff_sq is None:
                     idxroot[current] = self._gs_next(
                         current, samples_weight, dist_matrix, gabrial
                     )
